@@ -984,6 +984,11 @@ where
                 handler.discard(DiscardReason::Shutdown, &mut msg);
             }
         }
+        // jobs waiting in the per-worker queues (worker-queued routing, sticky routing) are
+        // reported as discarded on shutdown as well
+        for worker_props in state.pool.values_mut() {
+            worker_props.discard_queued_jobs(DiscardReason::Shutdown);
+        }
 
         // cleanup the pool and wait for it to exit
         for worker_props in state.pool.values() {
